@@ -97,6 +97,7 @@ type corpus struct {
 	to      seq.MID
 	step    uint64
 	crosses map[string]bool
+	byI     []int // logical index -> position in docs
 }
 
 const baseMID = 1_700_000_000_000
@@ -124,6 +125,9 @@ func genCorpus(shape string, rng *vh.RNG) *corpus {
 		n = 3500
 		uniq = 12
 		c.crosses["tokens"] = true
+	case "manyfields": // hundreds of small fields: the token TABLE itself spans several 16 KiB blocks
+		n = 1500
+		c.crosses["tokens"] = true
 	case "exactdict": // a field whose tokens total exactly 16 KiB
 		n = 1200
 		exact = 1024
@@ -134,10 +138,20 @@ func genCorpus(shape string, rng *vh.RNG) *corpus {
 	c.step = 1000
 	perm := rng.Perm(n)
 	c.docs = make([]docSpec, n)
+	c.byI = make([]int, n)
 	for k := 0; k < n; k++ {
 		i := perm[k] // logical index; ids grow with i, insertion order is shuffled
+		c.byI[i] = k
 		mid := uint64(baseMID) + uint64(i/3)*c.step
 		rid := uint64(i%3)*1_000_003 + uint64(rng.Intn(1000)) + 1
+		// LID of document i is n-i (LID 1 = newest); around every ID block boundary (LID 4096*b) a run of documents
+		// shares one millisecond, with several RIDs on both sides of the boundary
+		for bnd := 4096; bnd < n; bnd += 4096 {
+			if i0 := n - bnd; i >= i0-9 && i <= i0+9 {
+				mid = uint64(baseMID) + uint64(i0/3)*c.step
+				rid = 5_000_000 + uint64(i)*3
+			}
+		}
 		svc := fmt.Sprintf("s%d", (i*7+i/5)%services)
 		lvl := []string{"info", "warn", "error"}[(i/2)%3]
 		pod := fmt.Sprintf("p%02d", (i*13)%pods)
@@ -157,6 +171,11 @@ func genCorpus(shape string, rng *vh.RNG) *corpus {
 			}
 			if i%2 == 0 {
 				toks = append(toks, "par:even")
+			}
+		}
+		if shape == "manyfields" {
+			for _, fi := range []int{i % 700, (i * 7) % 700, (i / 2) % 700} {
+				toks = append(toks, fmt.Sprintf("fld%03d_%s:v%d", fi, strings.Repeat("x", 26), i%3))
 			}
 		}
 		if uniq > 0 {
@@ -180,6 +199,15 @@ func genCorpus(shape string, rng *vh.RNG) *corpus {
 	}
 	if shape == "lids64k" {
 		c.queries = append(c.queries, "grp:all", "half:lo", "half:hi", "par:even", "grp:all AND half:hi", "half:lo OR par:even", "grp:all AND NOT par:even")
+	}
+	if shape == "manyfields" {
+		for k := 0; k < 40; k++ {
+			fi := rng.Intn(700)
+			if k < 10 {
+				fi = 150 + k*45 // spread over the table blocks
+			}
+			c.queries = append(c.queries, fmt.Sprintf("fld%03d_%s:v%d", fi, strings.Repeat("x", 26), k%3))
+		}
 	}
 	if uniq > 0 {
 		for k := 0; k < 12; k++ {
@@ -273,6 +301,27 @@ func buildRequests(c *corpus, rng *vh.RNG, quick bool) []request {
 					p := processor.SearchParams{AST: mustParse(q), From: seq.MID(w[0]), To: seq.MID(w[1]), Limit: []int{4, 1 << 20}[(qi+wi)%2], WithTotal: true, Order: order}
 					reqs = append(reqs, request{kind: "search", desc: fmt.Sprintf("search q=%q order=%d limit=%d total=true from=%d to=%d (lid-block window)", q, order, p.Limit, w[0], w[1]), params: p})
 				}
+			}
+		}
+	}
+	// fetch + narrow windows around every ID block boundary (runs of equal MIDs straddle it)
+	for bnd := 4096; bnd < len(c.docs); bnd += 4096 {
+		i0 := len(c.docs) - bnd
+		var ids []seq.ID
+		for i := i0 - 12; i <= i0+12; i++ {
+			if i >= 0 && i < len(c.docs) {
+				ids = append(ids, c.docs[c.byI[i]].id)
+			}
+		}
+		reqs = append(reqs, request{kind: "fetch", desc: fmt.Sprintf("fetch id-block-boundary lid=%d n=%d", bnd, len(ids)), ids: ids})
+		rev := append([]seq.ID{}, ids...)
+		sort.Slice(rev, func(a, b int) bool { return seq.Less(rev[b], rev[a]) })
+		reqs = append(reqs, request{kind: "fetch", desc: fmt.Sprintf("fetch id-block-boundary desc lid=%d n=%d", bnd, len(rev)), ids: rev})
+		m := uint64(c.docs[c.byI[i0]].id.MID)
+		for _, w := range [][2]uint64{{m, m}, {m - c.step, m}, {m, m + c.step}, {m + 1, m + 5*c.step}, {m - 5*c.step, m - 1}} {
+			for _, order := range []seq.DocsOrder{seq.DocsOrderDesc, seq.DocsOrderAsc} {
+				p := processor.SearchParams{AST: mustParse("_all_:*"), From: seq.MID(w[0]), To: seq.MID(w[1]), Limit: 1 << 20, WithTotal: true, Order: order}
+				reqs = append(reqs, request{kind: "search", desc: fmt.Sprintf("search q=\"_all_:*\" order=%d from=%d to=%d (id-block boundary)", order, w[0], w[1]), params: p})
 			}
 		}
 	}
@@ -947,11 +996,11 @@ func runSystemOracle(o vh.Opts, rng *vh.RNG, rep *vh.Report, tmp string) {
 	}
 	cases = append(cases, sysCase{Shape: "ids2", Seed: int64(rng.U64() >> 2), SkipSort: false, Zstd: 1, DocBlock: 4096, CacheKB: 8, OnlyReq: -1})
 	if o.Thorough() {
-		for i, sh := range []string{"ids-exact", "ids-exact1", "bigdict", "exactdict", "lids64k", "ids2", "bigdict"} {
+		for i, sh := range []string{"ids-exact", "ids-exact1", "bigdict", "exactdict", "lids64k", "ids2", "bigdict", "manyfields", "manyfields"} {
 			cases = append(cases, sysCase{Shape: sh, Seed: int64(rng.U64() >> 2), SkipSort: i%2 == 0, Zstd: zs[i%4], DocBlock: []int{2048, 0, 512}[i%3], CacheKB: []int{4, 16, 1}[i%3], OnlyReq: -1})
 		}
 	} else {
-		for i, sh := range []string{"bigdict", "lids64k", "ids-exact", "exactdict"} {
+		for i, sh := range []string{"bigdict", "lids64k", "ids-exact", "exactdict", "manyfields"} {
 			cases = append(cases, sysCase{Shape: sh, Seed: int64(rng.U64() >> 2), SkipSort: i%2 == 0, Zstd: zs[(i+1)%4], DocBlock: []int{1024, 0, 256}[i%3], CacheKB: []int{4, 16, 1}[i%3], OnlyReq: -1})
 		}
 	}
